@@ -10,6 +10,7 @@
   history goes on from there (`run`).
 -/
 import Proofs.SeqInv
+import Proofs.TargetsInv
 namespace Pulser
 namespace C02
 
@@ -157,6 +158,18 @@ theorem seq_duration_is_max (s : SeqState) (f : Bool) :
   · exact .inl k3
   · obtain ⟨c, hc, he⟩ := List.mem_map.mp k3
     exact .inr ⟨c, hc, he⟩
+
+/-- **Every instruction acts on atoms of the register**, in every reachable state: target lists only
+come from the register itself (global channels), from a validated `target` / initial target, or are
+copied from the previous instruction of the channel. -/
+theorem targets_in_register (dev : Device) (nQ : Nat) (hd : DevOk dev) (s : SeqState)
+    (hr : Reach dev nQ s) : ∀ c ∈ s.chans, ∀ sl ∈ c.slots, ∀ q ∈ sl.targets, q < nQ := by
+  obtain ⟨evs, rfl⟩ := hr
+  have h0 : SeqInv (SeqState.init dev nQ) := by intro c hc; simp [SeqState.init] at hc
+  have ht := runEv_TG (s := SeqState.init dev nQ) hd h0 rfl
+    (by intro c hc; simp [SeqState.init] at hc) evs
+  intro c hc sl hsl q hq
+  exact ht c hc sl.targets (List.mem_map_of_mem hsl) q hq
 
 /-! ### Non-vacuity: a concrete device and history meet the hypotheses -/
 
